@@ -9,20 +9,37 @@ VARIABLE h
 
 Peers == {"out", "man", "in1", "in2"}
 S(d, p, k) == [do |-> d, peer |-> p, k |-> k]
+\* life-cycle steps (Private!DoStop / DoStart / DoReload / DoGone): "stop" and "start" on their own, "restart" = Session.Close + NewSession
+\* on the same database (the torrent is loaded from its resume record, started or stopped as it was), "remove" / "close" =
+\* RemoveTorrent / Session.Close while the harness keeps the handle, "magnetrace" = Magnet() from several goroutines racing RemoveTorrent
+Gone == {"remove", "close", "magnetrace"}
 Steps ==
     {S("manual", "man", ""), S("in", "in1", ""), S("in", "in2", "")}
     \cup {S("pex", p, k) : p \in Peers, k \in {"a", "d", "ad"}}
     \cup {S("port", p, "") : p \in {"out", "in1"}}
     \cup {S("magnet", "", ""), S("announce", "", ""), S("stopstart", "", ""), S("addtracker", "", "")}
+    \cup {S("stop", "", ""), S("start", "", ""), S("restart", "", "")}
+    \cup {S(g, "", "") : g \in Gone}
 
 Idx(q) == 1 .. Len(q)
-LastStop(q) == IF \E i \in Idx(q) : q[i].do = "stopstart" THEN CHOOSE i \in Idx(q) : q[i].do = "stopstart" /\ \A j \in Idx(q) : q[j].do = "stopstart" => j <= i ELSE 0
+Cut == {"stopstart", "stop", "start", "restart"}
+LastStop(q) == IF \E i \in Idx(q) : q[i].do \in Cut THEN CHOOSE i \in Idx(q) : q[i].do \in Cut /\ \A j \in Idx(q) : q[j].do \in Cut => j <= i ELSE 0
+\* the torrent is stopped after history q (a restart keeps it as it was)
+Stopped(q) == \E i \in Idx(q) : q[i].do = "stop" /\ \A j \in Idx(q) : j > i => q[j].do \notin {"start", "stopstart"}
+IsGone(q) == \E i \in Idx(q) : q[i].do \in Gone
 \* peer p is connected after history q: "out" always (tracker), the others after their connecting step since the last stop/start
 Connected(p, q) == p = "out" \/ \E i \in Idx(q) : i > LastStop(q) /\ q[i].peer = p /\ q[i].do \in {"manual", "in"}
 Once(s, q) == ~\E i \in Idx(q) : q[i] = s
+\* Magnet() may be called again in every new life-cycle state
+MagnetFresh(q) == Len(q) > 0 /\ q[Len(q)].do # "magnet"
 
 Enabled(s, q) ==
-    CASE s.do \in {"manual", "in"} -> ~Connected(s.peer, q)
+    CASE s.do = "magnet" -> Once(s, q) \/ (MagnetFresh(q) /\ (IsGone(q) \/ Stopped(q)))
+      [] IsGone(q) -> FALSE
+      [] s.do = "start" -> Stopped(q)
+      [] s.do \in Gone \cup {"restart"} -> Once(s, q)
+      [] Stopped(q) -> FALSE
+      [] s.do \in {"manual", "in"} -> ~Connected(s.peer, q)
       [] s.do \in {"pex", "port"} -> Connected(s.peer, q) /\ Once(s, q)
       [] OTHER -> Once(s, q)
 
